@@ -24,7 +24,10 @@ import plistlib
 
 from harness.core import vloop
 
-RULE = ("round 4: every documented HAP error code with/without the BackOff item at every TLV reply (thorough: all 14 for "
+RULE = ("round 5: error replies with HTTP status 400/401/403/404/405/470/500/503 at every HTTP reply incl. /pair-pin-start; "
+        "two handlers alive in one process and one event loop (mrp+mrp, companion+companion, airplay-hap+raop-hap, "
+        "mrp+companion; thorough: four more pairs), one honest and one faulty (or both honest), interleaved by start "
+        "delays and per-connection latencies (5 profiles), each judged on its own; round 4: every documented HAP error code with/without the BackOff item at every TLV reply (thorough: all 14 for "
         "NN; otherwise the back-off reply and one seed-chosen other); wrong-type containers naming the expected "
         "keys (plist roots, OPACK pairing data / root, TLV as text body); configuration sweep (DMAP pairing guid and "
         "remote name shapes x right code / wrong code / missing field; presented name for the other handlers, "
@@ -187,13 +190,20 @@ class Link:
     def wrote(self, side, data):
         if side == "c":
             self.world.on_client_write(self, data)
-            self.loop.call_soon(self._deliver, "s", data)
+            self._later(self._deliver, "s", data)
             return
         out = self.world.on_server_write(self, data)
         if out == "disconnect":
             self.disconnect()
         elif out is not None:
-            self.loop.call_soon(self._deliver, "c", out)
+            self._later(self._deliver, "c", out)
+
+    def _later(self, fn, *args):
+        lat = getattr(self.world, "latency", 0)
+        if lat:
+            self.loop.call_later(lat, fn, *args)
+        else:
+            self.loop.call_soon(fn, *args)
 
     def disconnect(self):
         """The device goes away: both ends see the connection drop."""
@@ -234,16 +244,18 @@ class PipeLoop(vloop.VirtualLoop):
     def __init__(self, world):
         super().__init__()
         self.world = world
+        self.worlds = {}              # port -> World when several exchanges run in one process
         self.listeners = {}
 
     async def create_connection(self, protocol_factory, host=None, port=None, **kwargs):
-        self.world.events.append("connect")
-        if self.world.refuse_connect or port not in self.listeners:
+        world = self.worlds.get(port, self.world)
+        world.events.append("connect")
+        if world.refuse_connect or port not in self.listeners:
             raise ConnectionRefusedError(111, "Connect call failed (%r, %r)" % (host, port))
         client = protocol_factory()
         server = self.listeners[port]()
-        link = Link(self, port, client, server, self.world)
-        self.world.links.append(link)
+        link = Link(self, port, client, server, world)
+        world.links.append(link)
         link.start()
         return link.tr["c"], client
 
@@ -436,7 +448,7 @@ def variants_for(reply, is_proof_reply):
         # well-formed OPACK of the wrong type where the pairing data / the message dict should be
         out += [("garbage", "pd:str"), ("garbage", "pd:int"), ("garbage", "pd:array"), ("garbage", "root:array")]
     if reply.proto == "http":
-        out.append(("error", "http500"))
+        out += [("error", "http%d" % c) for c in HTTP_ERROR_CODES]     # http500 first
         if reply.tlv is not None:
             out.append(("garbage", "body:text"))      # the TLV delivered as a text body
         if reply.phase == "plist":
@@ -466,6 +478,11 @@ def variants_for(reply, is_proof_reply):
 
 
 SHAPES = ["empty", "prefix", "extended"]
+HTTP_ERROR_CODES = [500, 400, 401, 403, 404, 405, 470, 503]
+
+
+def is_status_variant(kind, variant):
+    return kind == "error" and str(variant).startswith("http") and variant != "http500"
 ERROR_CODES = ["Unknown", "Authentication", "BackOff", "MaxPeers", "MaxTries", "Unavailable", "Busy"]
 
 
@@ -520,8 +537,8 @@ def mutate(codec, reply, kind, variant, rng):
         return "disconnect"
     if kind == "garbage" and variant == "frame":
         return codec.garbage_frame(rng)
-    if kind == "error" and variant == "http500":
-        return codec.encode(reply.raw[0], code=500, body=b"")
+    if kind == "error" and variant.startswith("http"):
+        return codec.encode(reply.raw[0], code=int(variant[4:]), body=b"")
     if kind == "garbage" and variant == "body":
         return codec.encode(reply.raw[0], body=b"bplist00" + b"\xff" + rng.bytes_(rng.randrange(8, 40)))
     if reply.phase == "plist" and kind == "missing":
@@ -701,7 +718,7 @@ def prior_values(name, prior):
 PRIOR_COMBOS = [a + b for a in "NAB" for b in "NAB"]
 
 
-def _peer_factory(name, loop, state_box, device_pin=None):
+def _peer_factory(name, loop, state_box, device_pin=None, world=None):
     """`device_pin` (4-digit string) = the PIN the fake device displays; None = its default."""
     if name == "mrp":
         from pyatv.protocols.mrp.server_auth import new_server_session
@@ -718,7 +735,7 @@ def _peer_factory(name, loop, state_box, device_pin=None):
     if name == "companion":
         from tests.fake_device.companion import FakeCompanionService, FakeCompanionState
         state = state_box.setdefault("state", FakeCompanionState())
-        world = loop.world
+        world = world or loop.world
 
         class Peer(FakeCompanionService):
             def send_to_client(self, frame_type, data):
@@ -779,7 +796,7 @@ def _err_class(exc):
     return "other:" + type(exc).__name__
 
 
-async def _pair_client(name, prior, fault, world, loop, pins=None, ops=None, config=None):
+async def _pair_client(name, prior, fault, world, loop, pins=None, ops=None, config=None, port=None):
     """begin(); pin(); finish() on the real handler obtained from pyatv.pair()."""
     import pyatv
     from pyatv.conf import AppleTV, ManualService
@@ -790,7 +807,7 @@ async def _pair_client(name, prior, fault, world, loop, pins=None, ops=None, con
     proto_name, slot, _codec, features = CONFIGS[name]
     protocol = getattr(Protocol, proto_name)
     props = {"features": features} if features else {}
-    service = ManualService("c08_id", protocol, PORT, props)
+    service = ManualService("c08_id_%s" % (port or PORT), protocol, port or PORT, props)
     old, old_settings = prior_values(name, prior)
     service.credentials = old
     conf = AppleTV("127.0.0.1", "C08 device")
@@ -915,6 +932,64 @@ def run_one(name, prior, fault, rng, pins=None, ops=None, config=None):
         return obs
     finally:
         unhook()
+        logging.disable(logging.NOTSET)
+        try:
+            pending = [t for t in asyncio.all_tasks(loop) if not t.done()]
+            for t in pending:
+                t.cancel()
+            if pending:
+                loop.run_until_complete(asyncio.gather(*pending, return_exceptions=True))
+        except Exception:
+            pass
+        asyncio.set_event_loop(None)
+        loop.close()
+
+
+def run_pair(specs, rng, delays=(0.0, 0.0), latencies=(0.0, 0.0)):
+    """Two pairing handlers alive in ONE process and ONE event loop, their exchanges running
+    concurrently (own fake device, own port, own fault plan each): `specs` = two
+    (name, prior, fault); `delays` = virtual seconds before each starts, `latencies` = one-way
+    delivery time of each connection, which together decide how the messages interleave.
+    Returns the two observations."""
+    worlds = []
+    for i, (name, _prior, fault) in enumerate(specs):
+        w = World(CONFIGS[name][2](), fault, rng.fork("w%d" % i))
+        w.latency = latencies[i]
+        worlds.append(w)
+    loop = PipeLoop(worlds[0])
+    boxes = [{}, {}]
+
+    async def one(i):
+        name, prior, fault = specs[i]
+        port = PORT + i
+        loop.worlds[port] = worlds[i]
+        loop.listeners[port] = _peer_factory(name, loop, boxes[i], None, worlds[i])
+        if delays[i]:
+            await asyncio.sleep(delays[i])
+        try:
+            return await _pair_client(name, prior, fault, worlds[i], loop, port=port)
+        except Exception as ex:  # the harness itself
+            return {"harness_error": "%s: %s" % (type(ex).__name__, ex)}
+
+    async def main():
+        return await asyncio.gather(one(0), one(1))
+
+    logging.disable(logging.CRITICAL)
+    try:
+        asyncio.set_event_loop(loop)
+        try:
+            out = loop.run_until_complete(main())
+        except vloop.Deadlock as ex:
+            out = [{"harness_error": "deadlock: %s" % ex}, {"harness_error": "deadlock: %s" % ex}]
+        for i, obs in enumerate(out):
+            name, _prior, fault = specs[i]
+            obs["events"] = list(worlds[i].events)
+            obs["replies"] = worlds[i].replies
+            obs["injected"] = worlds[i].injected or bool(fault and (fault[0] == 0 or fault[1] == "wrongpin"))
+            peer = boxes[i].get("state")
+            obs["peer_verified"] = bool(peer.has_authenticated) if (name == "mrp" and peer is not None) else None
+        return out
+    finally:
         logging.disable(logging.NOTSET)
         try:
             pending = [t for t in asyncio.all_tasks(loop) if not t.done()]
@@ -1350,6 +1425,14 @@ def run(ctx, only=None):
                 # airplay-hap AA) / by the same handler class (raop-hap NN): one fault per await point
                 full = False
             script = script_name(name, prior)
+            if only is not None and only.get("concurrent") is not None:
+                c = only["concurrent"]
+                specs = [(n, p, tuple(f) if f else None) for n, p, f in c["specs"]]
+                out = run_pair(specs, ctx.rng.fork("replay"), tuple(c["delays"]), tuple(c["latencies"]))
+                for (n, p, f), obs in zip(specs, out):
+                    for tag, text in oracle(n, obs, f):
+                        ctx.fail("%s:concurrent:%s:%s" % (n, f[1] if f else "none", tag), only, None, "", text)
+                return
             if only is not None and only.get("config") is not None:
                 fault = None if only["index"] is None else (only["index"], only["kind"], only["variant"])
                 pins = only.get("pins")
@@ -1418,6 +1501,21 @@ def run(ctx, only=None):
                         shape_of[field] = vrng.choice(SHAPES)
                     return v.endswith("=" + shape_of[field])
                 faults = [f for f in faults if keep_shape(f)]
+            # HTTP status of an error reply: thorough tier all eight codes at every reply for NN and AA; quick
+            # tier with AA all eight at the first reply (/pair-pin-start) and 404 + one seed-chosen code later
+            if not (ctx.thorough and prior in ("NN", "AA")):
+                hrng = ctx.rng.fork("status", name, prior)
+                keep_h = []
+                for i in sorted({f[0] for f in faults if is_status_variant(f[1], f[2])}):
+                    codes = [f for f in faults if f[0] == i and is_status_variant(f[1], f[2])]
+                    if prior == "NN" and not ctx.thorough:
+                        continue
+                    if prior == "AA" and i == 1:
+                        keep_h += codes
+                    else:
+                        keep_h.append(next(f for f in codes if f[2] == "http404"))
+                        keep_h.append(hrng.choice([f for f in codes if f[2] != "http404"]))
+                faults = [f for f in faults if not is_status_variant(f[1], f[2]) or f in keep_h]
             # error codes x BackOff item: all 14 per TLV reply in the thorough tier for NN and AA; otherwise
             # per TLV reply the documented back-off reply (Error=BackOff + BackOff item) and one seed-chosen other
             if not (ctx.thorough and prior == "NN"):
@@ -1448,6 +1546,7 @@ def run(ctx, only=None):
     pin_sweep(ctx, lines, pending)
     sequence_sweep(ctx, lines, pending)
     config_sweep(ctx, lines, pending)
+    concurrent_sweep(ctx, lines, pending)
     # --- error_handler itself: what class reaches the caller for each kind of inner failure
     for kind, cls in probe_error_handler():
         lines.append("errclass handler " + kind)
@@ -1550,6 +1649,67 @@ def pin_sweep(ctx, lines, pending):
                 ctx.note("pin:" + ("boundary" if pin in (0, 1, 9999) else "other") + (":" + fault[1] if fault else ":right"))
                 lines.append(line)
                 pending.append(("run", case, canon_obs(obs)))
+
+
+# ------------------------------------------------------------------------------------------
+# two handlers alive and running concurrently in one process
+# ------------------------------------------------------------------------------------------
+PAIRS = [("mrp", "mrp"), ("companion", "companion"), ("airplay-hap", "raop-hap"), ("mrp", "companion"),
+         ("airplay-hap", "airplay-hap"), ("companion", "airplay-hap"), ("airplay-legacy", "raop-hap"), ("raop-hap", "mrp")]
+# (start delays, one-way latencies) in virtual seconds: lock-step; the first a little ahead at every
+# message; the second a little ahead; different speeds (the order flips during the exchange)
+PROFILES = [((0.0, 0.0), (0.0, 0.0)), ((0.0, 0.004), (0.01, 0.01)), ((0.004, 0.0), (0.01, 0.01)),
+            ((0.0, 0.0), (0.01, 0.007)), ((0.0, 0.02), (0.009, 0.004))]
+
+
+def concurrent_sweep(ctx, lines, pending):
+    """One honest exchange and one faulty exchange (or two honest ones), interleaved at message
+    granularity in one event loop; each is judged on its own by the same oracle and compared
+    with the model's run of its own script: what happens on the other connection must not matter."""
+    ids = {"N": "0", "A": "1", "B": "2"}
+    rng = ctx.rng.fork("concurrent")
+    pairs = PAIRS if ctx.thorough else PAIRS[:4]
+    for na, nb in pairs:
+        pa, pb = "AB", "BA"
+        base = recon(ctx, nb, pb)
+        _b, faults = fault_space(nb, pb, None, base=base)
+        cand = [f for f in faults if (f[1], f[2]) in (("error", "tlv"), ("dropped", "-"), ("wrongpin", "-"),
+                                                      ("error", "http404"), ("disconnect", "-"), ("missing", "pairingdata"))]
+        last = max(f[0] for f in cand)
+        must = [f for f in cand if f[0] == last and f[1] == "error"][:1] + [f for f in cand if f[1] == "wrongpin"][:1]
+        rest = [f for f in cand if f not in must]
+        if ctx.thorough:
+            chosen = [None] + must + rest
+        else:
+            chosen = [None] + must + [rng.choice(rest)]
+        for fault in chosen:
+            profiles = PROFILES if (ctx.thorough and (fault is None or fault in must)) else rng.sample(PROFILES, 2)
+            for delays, lats in profiles:
+                for honest_first in ((True, False) if (fault in must and ctx.thorough) else (rng.chance(0.5),)):
+                    specs = [(na, pa, None), (nb, pb, fault)]
+                    if not honest_first:
+                        specs.reverse()
+                    out = run_pair(specs, rng.fork(na, nb, repr(fault), repr(delays), repr(lats)), delays, lats)
+                    for (name, prior, flt), obs in zip(specs, out):
+                        idx, kind, variant = flt if flt else (None, None, None)
+                        label = label_of(name, obs, idx) if flt else "-"
+                        case = {"handler": name, "prior": prior, "index": idx, "message": label, "kind": kind,
+                                "variant": variant, "rep": 0,
+                                "concurrent": {"specs": [[n, p, list(f) if f else None] for n, p, f in specs],
+                                               "delays": list(delays), "latencies": list(lats)}}
+                        summary = {k: obs.get(k) for k in ("err", "exc_name", "exc_text", "where", "paired", "svc", "prior", "prior_settings")}
+                        for tag, text in oracle(name, obs, flt):
+                            ctx.fail("%s:%s:%s:%s" % (name, label if flt else "fault-free", kind or "none", tag), case, summary,
+                                     "each of two concurrent exchanges obeys the property on its own",
+                                     text + " [while %s ran concurrently]" % (specs[1 - specs.index((name, prior, flt))][0],))
+                        script = script_name(name, prior)
+                        init = "%s %s" % (ids[prior[0]], ids[prior[1]])
+                        lines.append("runinit %s %s %s %s" % (script, "-" if flt is None else flt[0], "-" if flt is None else flt[1], init))
+                        pending.append(("runinit", case, canon_values(name, obs)))
+                    ctx.case(["concurrent", na, nb, list(fault or ()), list(delays), list(lats), honest_first], True,
+                             sample={"pair": [na, nb], "fault": list(fault or ()), "delays": list(delays), "latencies": list(lats),
+                                     "results": [(o.get("err"), o.get("paired")) for o in out]})
+                    ctx.note("concurrent:%s+%s" % (na, nb))
 
 
 # ------------------------------------------------------------------------------------------
